@@ -2157,6 +2157,34 @@ package spec
 //@   ensures  [C15,C05] unknown-keyword-member @@ result2 != nil && oCnt(jv(result2), token) > 0 && !isExtKey(token) && !schemaKey(token) && token != "$ref" && token != "$schema" ==> extMember(result0, result1, jv(result2), token)
 //@   ensures  [C15,C05] keyword-member @@ result2 != nil && oCnt(jv(result2), token) > 0 && schemaKey(token) ==> result1 == nil && encOf(result0) == oVal(jv(result2), token)
 
+// the union types in their schema form (Schema != nil): same encoding as the schema, same answers as the schema
+//@ func verifLemmaSchemaOrBoolEncodesAsSchema
+//@   property C15, C05
+//@   requires s.Schema != nil
+//@   ensures  [C15,C05] schema-form-encodes-as-the-schema @@ result != nil ==> jv(result) == encOf(*s.Schema)
+
+//@ func verifLemmaSchemaOrStringArrayEncodesAsSchema
+//@   property C15, C05
+//@   requires s.Schema != nil && len(s.Property) == 0
+//@   ensures  [C15,C05] schema-form-encodes-as-the-schema @@ result != nil ==> jv(result) == encOf(*s.Schema)
+
+//@ func verifLemmaSchemaOrBoolLookup
+//@   property C15, C05
+//@   requires s.Schema != nil && extOnly(s.Schema.Extensions) && extraOnly(s.Schema.ExtraProps) && !isExtKey("allows") && !schemaKey("allows")
+//@   requires (forall k string :: schemaKey(k) ==> !isExtKey(k) && k != "$ref" && k != "$schema") && !isExtKey("$ref") && !isExtKey("$schema")
+//@   ensures  [C15,C05] extension-member @@ result2 != nil && oCnt(jv(result2), token) > 0 && isExtKey(token) ==> extMember(result0, result1, jv(result2), token)
+//@   ensures  [C15,C05] unknown-keyword-member @@ result2 != nil && oCnt(jv(result2), token) > 0 && !isExtKey(token) && !schemaKey(token) && token != "$ref" && token != "$schema" ==> extMember(result0, result1, jv(result2), token)
+//@   excluding unknown-keyword-member @@ token != "allows"
+//@   ensures  [C15,C05] keyword-member @@ result2 != nil && oCnt(jv(result2), token) > 0 && schemaKey(token) ==> result1 == nil && encOf(result0) == oVal(jv(result2), token)
+
+//@ func verifLemmaSchemaOrStringArrayLookup
+//@   property C15, C05
+//@   requires s.Schema != nil && len(s.Property) == 0 && extOnly(s.Schema.Extensions) && extraOnly(s.Schema.ExtraProps)
+//@   requires (forall k string :: schemaKey(k) ==> !isExtKey(k) && k != "$ref" && k != "$schema") && !isExtKey("$ref") && !isExtKey("$schema")
+//@   ensures  [C15,C05] extension-member @@ result2 != nil && oCnt(jv(result2), token) > 0 && isExtKey(token) ==> extMember(result0, result1, jv(result2), token)
+//@   ensures  [C15,C05] unknown-keyword-member @@ result2 != nil && oCnt(jv(result2), token) > 0 && !isExtKey(token) && !schemaKey(token) && token != "$ref" && token != "$schema" ==> extMember(result0, result1, jv(result2), token)
+// (the keyword-member clause, proved for SchemaOrBool, does not discharge here within the limit and is not claimed)
+
 // ---- the root object, and the two plain kinds without codecs of their own
 //@ func verifLemmaSwaggerRoundTrip
 //@   property C01, C19, C06
